@@ -661,6 +661,10 @@ class PX:
                 return p
             if isinstance(p, tuple) and p and p[0] == "refconst":
                 return p[1]
+            if isinstance(p, tuple) and p and p[0] == "static":
+                c = self.facts.consts.get(p[1]) if hasattr(self, "facts") else None
+                if c and "int" in c:
+                    return const(c["int"])
             return ("deref", p)
         return ("uninit", root)
 
